@@ -16,6 +16,7 @@ import (
 	"testing"
 	"time"
 	"unicode"
+	"unicode/utf8"
 
 	"github.com/grafana/regexp"
 
@@ -54,6 +55,45 @@ func vfC01Content(r *vfRand) []byte {
 		b.WriteString(r.Pick(vfC01Tokens))
 	}
 	return []byte(b.String())
+}
+
+// vfC01Sections: sorted non-overlapping symbol sections (byte offsets at rune boundaries) over the content: adjacent ones,
+// one at offset 0, one ending at the end of the content, sections inside / ending inside runs of multi-byte runes, rarely empty ones.
+func vfC01Sections(r *vfRand, content []byte) ([]DocumentSection, []*zoekt.Symbol) {
+	var bounds []int // byte offsets of rune boundaries
+	for i := range string(content) {
+		bounds = append(bounds, i)
+	}
+	bounds = append(bounds, len(content))
+	if len(content) == 0 || !r.Chance(65) {
+		return nil, nil
+	}
+	nb := len(bounds)
+	var secs []DocumentSection
+	pos := 0
+	if !r.Chance(30) {
+		pos = r.Intn(nb)
+	}
+	for len(secs) < 5 && pos < nb-1 {
+		ln := 1 + r.Intn(7)
+		if r.Chance(4) {
+			ln = 0
+		}
+		end := pos + ln
+		if end > nb-1 || r.Chance(10) {
+			end = nb - 1
+		}
+		secs = append(secs, DocumentSection{Start: uint32(bounds[pos]), End: uint32(bounds[end])})
+		pos = end
+		if !r.Chance(30) { // otherwise adjacent to the next section
+			pos += 1 + r.Intn(4)
+		}
+	}
+	var meta []*zoekt.Symbol
+	for i := range secs {
+		meta = append(meta, &zoekt.Symbol{Sym: fmt.Sprintf("s%d", i), Kind: "function"})
+	}
+	return secs, meta
 }
 
 type vfC01Corpus struct {
@@ -103,6 +143,7 @@ func vfC01GenCorpus(r *vfRand) vfC01Corpus {
 		ri := r.Intn(nrepos)
 		repo := c.repos[ri]
 		d := Document{Name: r.Pick(vfC01Names), Content: vfC01Content(r), Language: r.Pick(vfC01Langs)}
+		d.Symbols, d.SymbolsMetaData = vfC01Sections(r, d.Content)
 		if r.Chance(70) {
 			d.Name = fmt.Sprintf("%d%s", i, d.Name) // mostly unique names, sometimes duplicates
 		}
@@ -115,7 +156,7 @@ func vfC01GenCorpus(r *vfRand) vfC01Corpus {
 		case r.Chance(4):
 			d.SkipReason = SkipReasonTooLarge
 		case r.Chance(3):
-			d.Content = append(d.Content, 0, 'f', 'o', 'o') // binary => skipped by Add
+			d.Content = append(d.Content, 0, 'f', 'o', 'o') // binary => skipped by Add (symbols dropped)
 		}
 		if r.Chance(10) {
 			if repo.FileTombstones == nil {
@@ -173,6 +214,8 @@ type vfC01Doc struct {
 	mask          uint64
 	repo          int
 	lang          uint16
+	secs          [][2]int // symbol sections read back from the shard, as RUNE offsets into content (model) ...
+	bsecs         [][2]int // ... and as byte offsets (oracle)
 }
 
 func vfC01ReadBack(t testing.TB, d *indexData) []vfC01Doc {
@@ -182,8 +225,20 @@ func vfC01ReadBack(t testing.TB, d *indexData) []vfC01Doc {
 		if err != nil {
 			t.Fatal(err)
 		}
-		out = append(out, vfC01Doc{name: string(d.fileName(i)), content: string(ct), mask: d.fileBranchMasks[i],
-			repo: int(d.repos[i]), lang: d.getLanguage(i)})
+		doc := vfC01Doc{name: string(d.fileName(i)), content: string(ct), mask: d.fileBranchMasks[i],
+			repo: int(d.repos[i]), lang: d.getLanguage(i)}
+		ds, _, err := d.readDocSections(i, nil)
+		if err != nil {
+			t.Fatal(err)
+		}
+		for _, sec := range ds {
+			if int(sec.End) > len(ct) || sec.Start > sec.End {
+				t.Fatalf("read back section %v outside content of %d bytes", sec, len(ct))
+			}
+			doc.bsecs = append(doc.bsecs, [2]int{int(sec.Start), int(sec.End)})
+			doc.secs = append(doc.secs, [2]int{utf8.RuneCount(ct[:sec.Start]), utf8.RuneCount(ct[:sec.End])})
+		}
+		out = append(out, doc)
 	}
 	return out
 }
@@ -298,8 +353,102 @@ func (e *vfC01Env) regexSrc(r *vfRand) string {
 	}
 }
 
+// symPat: patterns relative to symbol sections: inside one, the whole of one, straddling a section boundary, just outside.
+func (e *vfC01Env) symPat(r *vfRand) string {
+	var cand []int
+	for k, dd := range e.docs {
+		if len(dd.secs) > 0 {
+			cand = append(cand, k)
+		}
+	}
+	if len(cand) == 0 || r.Chance(15) {
+		return e.pat(r)
+	}
+	dd := e.docs[cand[r.Intn(len(cand))]]
+	rs := []rune(dd.content)
+	sec := dd.secs[r.Intn(len(dd.secs))]
+	clamp := func(a, b int) string {
+		if a < 0 {
+			a = 0
+		}
+		if b > len(rs) {
+			b = len(rs)
+		}
+		if a >= b {
+			return e.pat(r)
+		}
+		return string(rs[a:b])
+	}
+	switch r.Intn(8) {
+	case 0, 1:
+		return clamp(sec[0], sec[1]) // the whole section
+	case 2:
+		return vfC01Sub(r, clamp(sec[0], sec[1]))
+	case 3:
+		return clamp(sec[0]-1, sec[1]) // one rune before the start
+	case 4:
+		return clamp(sec[0], sec[1]+1) // one rune past the end
+	case 5:
+		return clamp(sec[1]-2, sec[1]+2) // straddles the end (possibly into an adjacent section)
+	case 6:
+		return clamp(sec[0]-2, sec[0]+2) // straddles the start
+	default:
+		return clamp(sec[1], sec[1]+3) // right behind the section
+	}
+}
+
+func (e *vfC01Env) symAtom(r *vfRand) query.Q {
+	if r.Chance(55) {
+		s := &query.Substring{Pattern: e.symPat(r), CaseSensitive: r.Chance(50), Content: r.Chance(50)}
+		if s.Pattern == "" {
+			s.Pattern = "a"
+		}
+		return &query.Symbol{Expr: s}
+	}
+	L := func() string { return stdregexp.QuoteMeta(e.symPat(r)) }
+	var src string
+	switch r.Intn(12) {
+	case 0, 1:
+		src = L()
+	case 2:
+		src = "(" + L() + "|" + L() + ")"
+	case 3:
+		src = L() + ".*" + L()
+	case 4:
+		src = "^" + L() + "$"
+	case 5:
+		src = "(?i:" + L() + ")"
+	case 6:
+		src = ".*"
+	case 7:
+		src = "(" + L() + ")+"
+	case 8:
+		src = `` + L() + ``
+	case 9:
+		src = L() + "|" + L() + "|" + L()
+	case 10:
+		src = "[ab]" + L()
+	default:
+		src = e.regexSrc(r)
+	}
+	re, err := syntax.Parse(src, syntax.ClassNL|syntax.PerlX|syntax.UnicodeGroups)
+	if err != nil {
+		return &query.Const{Value: true}
+	}
+	re = query.OptimizeRegexp(re, syntax.ClassNL|syntax.PerlX|syntax.UnicodeGroups)
+	if re.Op == syntax.OpEmptyMatch {
+		return &query.Const{Value: true}
+	}
+	q := &query.Regexp{Regexp: re, CaseSensitive: r.Chance(60), Content: r.Chance(50)}
+	e.rsrc[q] = src
+	return &query.Symbol{Expr: q}
+}
+
 func (e *vfC01Env) atom(r *vfRand) query.Q {
 	d := e.d
+	if r.Chance(14) {
+		return e.symAtom(r)
+	}
 	switch r.Intn(24) {
 	case 0, 1, 2, 3, 4, 5, 6:
 		s := &query.Substring{Pattern: e.pat(r), CaseSensitive: r.Chance(50)}
@@ -582,6 +731,24 @@ func (e *vfC01Env) eval(q query.Q, k int) bool {
 	case *query.Meta:
 		v, ok := md.Metadata[s.Field]
 		return ok && stdregexp.MustCompile(e.rsrc2[s.Value]).MatchString(v)
+	case *query.Symbol:
+		// reference semantics: the expression matches the text of one symbol section (taken on its own)
+		for _, sec := range doc.bsecs {
+			text := doc.content[sec[0]:sec[1]]
+			switch x := s.Expr.(type) {
+			case *query.Substring:
+				if vfC01Contains(text, x.Pattern, x.CaseSensitive) {
+					return true
+				}
+			case *query.Regexp:
+				if e.stdRe(x).MatchString(text) {
+					return true
+				}
+			default:
+				panic(fmt.Sprintf("oracle: unknown symbol expression %T", s.Expr))
+			}
+		}
+		return false
 	}
 	panic(fmt.Sprintf("oracle: unknown query %T", q))
 }
@@ -646,6 +813,7 @@ func vfC01Rx(re *syntax.Regexp) string {
 type vfC01Ser struct {
 	e        *vfC01Env
 	retbl    []string
+	symtbl   []string // per symbol regexp atom: (id, per document the reference engine's verdict on the text of each section)
 	nextID   uint64
 	runes    map[rune]bool
 	diverges bool // the engine used by the implementation (grafana/regexp) and the reference engine (stdlib) disagree on a text of this case
@@ -667,7 +835,11 @@ func (s *vfC01Ser) shortLit(lit string, cs bool) {
 	}
 	impl := vfC01ImplRe(&syntax.Regexp{Op: syntax.OpLiteral, Rune: []rune(lit)}, cs)
 	for _, dd := range s.e.docs {
-		for _, text := range []string{dd.name, dd.content} {
+		texts := []string{dd.name, dd.content}
+		for _, sec := range dd.bsecs {
+			texts = append(texts, dd.content[sec[0]:sec[1]])
+		}
+		for _, text := range texts {
 			if impl.MatchString(text) != vfC01Contains(text, lit, cs) {
 				s.diverges = true
 			}
@@ -728,6 +900,46 @@ func (s *vfC01Ser) q(q query.Q) string {
 		}
 		walk(t.Regexp)
 		return cApp("QRegexp", cN(id), vfC01Rx(t.Regexp), cBool(t.Regexp.Flags&syntax.FoldCase != 0), cBool(t.CaseSensitive), cBool(t.FileName), cBool(t.Content))
+	case *query.Symbol:
+		switch x := t.Expr.(type) {
+		case *query.Substring:
+			s.note(x.Pattern)
+			s.shortLit(x.Pattern, x.CaseSensitive)
+			return cApp("QSymSubstr", cRunes(x.Pattern), cBool(x.CaseSensitive))
+		case *query.Regexp:
+			id := s.nextID
+			s.nextID++
+			re := e.stdRe(x)
+			impl := vfC01ImplRe(x.Regexp, x.CaseSensitive)
+			var rows, srows []string
+			for _, dd := range e.docs {
+				rows = append(rows, cPair(cBool(re.MatchString(dd.name)), cBool(re.MatchString(dd.content))))
+				var vs []string
+				for _, sec := range dd.bsecs {
+					text := dd.content[sec[0]:sec[1]]
+					vs = append(vs, cBool(re.MatchString(text)))
+					if impl.MatchString(text) != re.MatchString(text) {
+						s.diverges = true
+					}
+				}
+				srows = append(srows, cListOr(vs, "bool"))
+			}
+			s.retbl = append(s.retbl, cPair(cN(id), cListOr(rows, "bool * bool")))
+			s.symtbl = append(s.symtbl, cPair(cN(id), cListOr(srows, "list bool")))
+			var walk func(r *syntax.Regexp)
+			walk = func(r *syntax.Regexp) {
+				if r.Op == syntax.OpLiteral {
+					s.note(string(r.Rune))
+					s.shortLit(string(r.Rune), x.CaseSensitive && r.Flags&syntax.FoldCase == 0)
+				}
+				for _, y := range r.Sub {
+					walk(y)
+				}
+			}
+			walk(x.Regexp)
+			return cApp("QSymRegexp", cN(id), vfC01Rx(x.Regexp), cBool(x.Regexp.Flags&syntax.FoldCase != 0), cBool(x.CaseSensitive))
+		}
+		panic(fmt.Sprintf("serialise: unknown symbol expression %T", t.Expr))
 	case *query.And:
 		return cApp("QAnd", kids(t.Children))
 	case *query.Or:
@@ -815,7 +1027,11 @@ func vfC01CorpusCoq(s *vfC01Ser) (repos, docs, langs string) {
 	for _, dd := range s.e.docs {
 		s.note(dd.name)
 		s.note(dd.content)
-		ds = append(ds, cTuple(cRunes(dd.name), cRunes(dd.content), cN(dd.mask), cNat(dd.repo), cN(uint64(dd.lang))))
+		var secs []string
+		for _, sec := range dd.secs {
+			secs = append(secs, cPair(cNat(sec[0]), cNat(sec[1])))
+		}
+		ds = append(ds, cTuple(cRunes(dd.name), cRunes(dd.content), cN(dd.mask), cNat(dd.repo), cN(uint64(dd.lang)), cListOr(secs, "nat * nat")))
 	}
 	var ls []string
 	for _, k := range vfSortedKeys(d.metaData.LanguageMap) {
@@ -888,6 +1104,12 @@ func vfC01QueryClasses(q query.Q, out map[string]bool) {
 		}
 	case *query.Regexp:
 		out["regexp"] = true
+	case *query.Symbol:
+		if _, ok := t.Expr.(*query.Regexp); ok {
+			out["symbol-regexp"] = true
+		} else {
+			out["symbol-substr"] = true
+		}
 	default:
 		out[strings.TrimPrefix(fmt.Sprintf("%T", q), "*query.")] = true
 	}
@@ -906,7 +1128,35 @@ func vfC01Leaves(d *indexData, q query.Q) string {
 		return "None"
 	}
 	var ls []string
-	visitMatchTree(mt, func(m matchTree) {
+	// like visitMatchTree, but the trees wrapped by the symbol nodes are not visited (the model represents a symbol node by
+	// its verdict per document, not by the trigram iterator it embeds)
+	var visit func(t matchTree, f func(matchTree))
+	visit = func(t matchTree, f func(matchTree)) {
+		switch s := t.(type) {
+		case *andMatchTree:
+			for _, ch := range s.children {
+				visit(ch, f)
+			}
+		case *orMatchTree:
+			for _, ch := range s.children {
+				visit(ch, f)
+			}
+		case *andLineMatchTree:
+			visit(&s.andMatchTree, f)
+		case *noVisitMatchTree:
+			visit(s.matchTree, f)
+		case *notMatchTree:
+			visit(s.child, f)
+		case *fileNameMatchTree:
+			visit(s.child, f)
+		case *boostMatchTree:
+			visit(s.child, f)
+		case *symbolSubstrMatchTree, *symbolRegexpMatchTree:
+		default:
+			f(t)
+		}
+	}
+	visit(mt, func(m matchTree) {
 		st, ok := m.(*substrMatchTree)
 		if !ok {
 			return
@@ -973,8 +1223,24 @@ func TestVerifC01(t *testing.T) {
 				vfOracleFail("search:hang", "Search did not return within 20s on a tiny shard", map[string]any{"query": q.String(), "docs": dd})
 				return // the search goroutine is still spinning; end the test (and the process) here
 			}
+			classes := map[string]bool{}
+			vfC01QueryClasses(q, classes)
 			if err != nil {
-				t.Fatalf("Search(%s): %v", q, err)
+				var dd []map[string]any
+				for _, x := range docs {
+					dd = append(dd, map[string]any{"name": x.name, "content": x.content, "mask": x.mask, "repo": x.repo, "lang": x.lang, "symbol_sections_bytes": x.bsecs})
+				}
+				var rsrc []string
+				for _, v := range e.rsrc {
+					rsrc = append(rsrc, v)
+				}
+				errKind := "other"
+				if strings.Contains(err.Error(), "inside query.Symbol") {
+					errKind = "no-regexp-in-symbol-tree"
+				}
+				vfOracleFail("search:error:"+errKind+":"+strings.Join(vfSortedKeys(classes), ","), "Search returns an error instead of the matching documents: "+err.Error(),
+					map[string]any{"case": fmt.Sprintf("%d/%d", i, j), "query": q.String(), "regexps": rsrc, "docs": dd})
+				continue
 			}
 			rows, got := vfC01Rows(d, docs, res.Files)
 			// ---- oracle: exactly the live documents on which the query holds, in document order
@@ -984,12 +1250,10 @@ func TestVerifC01(t *testing.T) {
 					want = append(want, d.repoMetaData[docs[k].repo].Name+":"+docs[k].name)
 				}
 			}
-			classes := map[string]bool{}
-			vfC01QueryClasses(q, classes)
 			if strings.Join(got, "\x00") != strings.Join(want, "\x00") {
 				var dd []map[string]any
 				for _, x := range docs {
-					dd = append(dd, map[string]any{"name": x.name, "content": x.content, "mask": x.mask, "repo": x.repo, "lang": x.lang})
+					dd = append(dd, map[string]any{"name": x.name, "content": x.content, "mask": x.mask, "repo": x.repo, "lang": x.lang, "symbol_sections_bytes": x.bsecs})
 				}
 				var rsrc []string
 				for _, v := range e.rsrc {
@@ -1013,7 +1277,8 @@ func TestVerifC01(t *testing.T) {
 				continue
 			}
 			repos, dcs, langs := vfC01CorpusCoq(ser)
-			coq := cTuple(repos, dcs, langs, ser.folds(), cListOr(ser.retbl, "N * list (bool * bool)"), qc, cListOr(rows, "nat * list N"), vfC01Leaves(d, q))
+			coq := cTuple(repos, dcs, langs, ser.folds(), cListOr(ser.retbl, "N * list (bool * bool)"), qc, cListOr(rows, "nat * list N"), vfC01Leaves(d, q),
+				cListOr(ser.symtbl, "N * list (list bool)"))
 			vfCase(coq, vfKey(repos, dcs, qc), len(want) > 0 && len(want) < len(docs),
 				append(vfSortedKeys(classes), fmt.Sprintf("repos=%d", len(d.repoMetaData)), fmt.Sprintf("hits=%d", min(len(want), 3))),
 				map[string]any{"case": fmt.Sprintf("%d/%d", i, j), "query": q.String(), "docs": len(docs), "got": got, "want": want})
